@@ -318,8 +318,26 @@ func (wf *Workflow) runProcs(procs map[string]WorkflowProcess) {
 	}
 
 	for _, proc := range procs {
+		// The driver process is run in the main go-routine below, and must
+		// not be started a second time here
+		if proc == wf.driver {
+			continue
+		}
 		Debug.Printf(wf.name+": Starting process (%s) in new go-routine", proc.Name())
 		go proc.Run()
+	}
+
+	// If a process without out-ports has taken over the driver role, the sink
+	// still has to drain the out-ports connected to it, and the workflow is
+	// not finished before the sink is
+	sinkDone := make(chan struct{})
+	if wf.driver != WorkflowProcess(wf.sink) {
+		go func() {
+			wf.sink.Run()
+			close(sinkDone)
+		}()
+	} else {
+		close(sinkDone)
 	}
 
 	verifPoint("wf.procs_started", wf.name, len(procs))
@@ -327,6 +345,7 @@ func (wf *Workflow) runProcs(procs map[string]WorkflowProcess) {
 	wf.Auditf("Starting workflow (Writing log to %s)", wf.logFile)
 	wf.driver.Run()
 	verifPoint("wf.driver_returned", wf.name, 0)
+	<-sinkDone
 	wf.Auditf("Finished workflow (Log written to %s)", wf.logFile)
 }
 
